@@ -102,6 +102,11 @@ impl Map {
         self.population_sizes().len()
     }
 
+    /// Returns an iterator over all population ids up to the largest id in the mapping.
+    pub(crate) fn population_ids(&self) -> impl Iterator<Item = population::Id> {
+        (0..self.0.values().map(|id| id.0 + 1).max().unwrap_or(0)).map(population::Id)
+    }
+
     /// Returns the number of samples defined for each population id.
     pub fn population_sizes(&self) -> HashMap<population::Id, usize> {
         let mut sizes = HashMap::new();
